@@ -498,7 +498,17 @@ def mon_C06(rng, budget, tier):
             if lim != OMIT:
                 kw["limit_sigma"] = lim[1]
             before = [[(p.mu, p.sigma) for p in t] for t in tms]
-            out = m.rate(tms, ranks=order, **kw)
+            # a league driven by random outcomes with a large per-game tau can push ratings out of the supported
+            # numeric range (|mu| <= 20 beta, sigma <= 10 beta), where the properties make no claim: end it there
+            if any(abs(mu_) > 20 * st["beta"] or sg_ > 10 * st["beta"] for t in before for mu_, sg_ in t):
+                mon.count("league left the supported range after %d games" % min(g, 50))
+                break
+            try:
+                out = m.rate(tms, ranks=order, **kw)
+            except Exception as ex:  # noqa: BLE001
+                mon.fail("valid call raised", {"league": True, "kind": kind, "st": st, "game": g, "history": hist[-6:], "before": before,
+                                               "ranks": order, "opts": kw}, "%s: %s" % (type(ex).__name__, ex))
+                break
             hist.append({"teams": tidx, "ranks": order, "tau": tau, "lim": lim})
             games += 1
             res = [[(p.mu, p.sigma) for p in t] for t in out]
